@@ -27,3 +27,6 @@ def run(c, replay):
     c.run_layer(b, "TestVerif_C19_walker", "walker", deadline_s=c.pick(100, 780), env=env,
                 rule="every tree within the bounds (states) x 12 walker values x 6 skip lists x 1-2 root forms, real Reader.readFiles vs a "
                      "reference walker on os.ReadDir/Lstat/Stat, multisets of delivered paths; non-trivial = walks with a non-empty expected list")
+    c.run_layer(b, "TestVerif_C19_root_spellings", "root-spellings", nshards=1, deadline_s=60, env=env,
+                rule="one directory named in 8 other ways (./x, x/, x//y, x/./y, x/sub/../y, LINK/../y through a symlinked directory, ...) x 5 walker settings x 3 skip lists: "
+                     "the listing equals the listing of the canonical spelling with the printed prefix exchanged")
